@@ -87,19 +87,41 @@ class _RandomWalker(_FuncStack):
         super().__init__()
         self.rel, self.np_names, self.random_names, self.from_np_random = rel, np_names, random_names, from_np_random
         self.out_random, self.out_par = out_random, out_par
+        self.parent_attr = {}      # id(node) -> attr name of the Attribute node whose .value is `node`
+
+    def index_parents(self, tree):
+        for n in ast.walk(tree):
+            if isinstance(n, ast.Attribute):
+                self.parent_attr[id(n.value)] = n.attr
+
+    def visit_Attribute(self, node):
+        # any use of the module `np.random` / `numpy.random` that does not go straight to a generator constructor:
+        # np.random.<fn>(...), `rng = np.random`, `f(np.random)`, np.random.mtrand._rand, ...
+        d = _dotted(node)
+        if d:
+            parts = d.split(".")
+            if len(parts) == 2 and parts[0] in self.np_names and parts[1] == "random":
+                nxt = self.parent_attr.get(id(node))
+                if nxt is None:
+                    self.out_random.append({"file": self.rel, "func": self.where(), "call": "np.random (alias)"})
+                elif nxt not in GEN_CTORS or nxt == "mtrand":
+                    self.out_random.append({"file": self.rel, "func": self.where(), "call": "np.random." + nxt})
+        self.generic_visit(node)
+
+    def visit_Name(self, node):
+        # `from numpy import random` / `import numpy.random as npr` / stdlib `import random`
+        if node.id in self.from_np_random or node.id in self.random_names:
+            nxt = self.parent_attr.get(id(node))
+            std = node.id in self.random_names
+            ok = ("Random", "SystemRandom") if std else tuple(GEN_CTORS - {"mtrand"})
+            if nxt is None or nxt not in ok:
+                self.out_random.append({"file": self.rel, "func": self.where(),
+                                        "call": ("random." if std else "np.random.") + (nxt or "(alias)")})
 
     def visit_Call(self, node):
         d = _dotted(node.func)
         if d:
             parts = d.split(".")
-            # np.random.fn(...)
-            if len(parts) >= 3 and parts[0] in self.np_names and parts[1] == "random" and parts[2] not in GEN_CTORS:
-                self.out_random.append({"file": self.rel, "func": self.where(), "call": "np.random." + parts[2]})
-            # `from numpy import random` / `import numpy.random as npr` / stdlib random
-            elif len(parts) == 2 and parts[0] in self.from_np_random and parts[1] not in GEN_CTORS:
-                self.out_random.append({"file": self.rel, "func": self.where(), "call": "np.random." + parts[1]})
-            elif len(parts) == 2 and parts[0] in self.random_names and parts[1] not in ("Random", "SystemRandom"):
-                self.out_random.append({"file": self.rel, "func": self.where(), "call": "random." + parts[1]})
             if parts[-1] in UNORDERED:
                 self.out_par.append({"file": self.rel, "func": self.where(), "what": parts[-1]})
         for kw in node.keywords or []:
@@ -194,7 +216,9 @@ def scan(root=None):
                     for a in node.names:
                         if a.name not in ("Random", "SystemRandom"):
                             out["random"].append({"file": rel, "func": "<import>", "call": "from random import " + a.name})
-        _RandomWalker(rel, np_names, random_names - from_np_random, from_np_random, out["random"], out["parallel"]).visit(tree)
+        w = _RandomWalker(rel, np_names, random_names - from_np_random, from_np_random, out["random"], out["parallel"])
+        w.index_parents(tree)
+        w.visit(tree)
         for node in ast.walk(tree):
             if isinstance(node, ast.ClassDef):
                 classes.setdefault(node.name, []).append((rel, node))
